@@ -3,8 +3,9 @@ import TunnoxModel.Spec.C12
 /-!
 Line protocol for C12.
 
-  tcp A <eof|err> <fused 0|1> <wfail n|-> <closeOnTail 0|1> <k> <bytes>*k  B … (same) …  s <schedule over a,b | ->
-  udp U <eof|err|hold> <k> (<bytes>|t)*k  T <eof|err|hold> <fused> tds <k> <bytes>*k cut <n> junk <bytes> ch <k> <size>*k  s <schedule over u,t | ->
+  tcp A [<kind cw|same|split|none>] <eof|err> <fused 0|1> <wfail n|-> <closeOnTail 0|1> <k> <bytes>*k  B … (same) …  s <schedule over a,b,A,B,x,y | ->
+  udp U <eof|err|hold> <k> (<bytes>|t)*k  T <eof|err|hold> <fused> tds <k> <bytes>*k cut <n> junk <bytes> ch <k> <size>*k  s <schedule over u,t,U,T,w,v | ->
+  (capital = the Write issued by this step stays in progress; x/y resp. w/v = it completes)
 
 `<bytes>`: lowercase hex, `-` empty, or `z<len>x<seed>` (pattern bytes `seed + 31*i`).
 Observations:
@@ -50,7 +51,10 @@ def parseBytesN : Nat → List String → Option (List Bytes × List String)
     pure (b :: r, ts')
   | _, _ => none
 
-def parseEP : List String → Option (EP × List String)
+def kindOf : String → Option Kind
+  | "cw" => some .cw | "same" => some .same | "split" => some .split | "none" => some .none | _ => none
+
+def parseEPk (kind : Kind) : List String → Option (EP × List String)
   | tl :: fu :: wf :: cot :: k :: ts => do
     let tail ← tailOfString tl
     let fused ← bitOf fu
@@ -58,17 +62,33 @@ def parseEP : List String → Option (EP × List String)
     let cot ← bitOf cot
     let k ← k.toNat?
     let (rs, ts') ← parseBytesN k ts
-    pure (⟨rs, tail, fused, wfail, cot⟩, ts')
+    pure (⟨rs, tail, fused, wfail, cot, kind⟩, ts')
   | _ => none
 
-def schedOf (on : Char) (off : Char) (s : String) : Option (List Bool) :=
+/-- `[<kind>] <tail> <fused> <wfail> <closeOnTail> <k> <bytes>*k`; the kind defaults to `cw`. -/
+def parseEP : List String → Option (EP × List String)
+  | t :: ts =>
+    match kindOf t with
+    | some k => parseEPk k ts
+    | none => parseEPk .cw (t :: ts)
+  | [] => none
+
+def tcpSched (s : String) : Option (List TTok) :=
   if s == "-" then some [] else
-  s.toList.mapM (fun c => if c == on then some true else if c == off then some false else none)
+  s.toList.mapM (fun c => match c with
+    | 'a' => some TTok.a | 'b' => some TTok.b | 'A' => some TTok.ah | 'B' => some TTok.bh
+    | 'x' => some TTok.ax | 'y' => some TTok.bx | _ => none)
+
+def udpSched (s : String) : Option (List UTok) :=
+  if s == "-" then some [] else
+  s.toList.mapM (fun c => match c with
+    | 'u' => some UTok.u | 't' => some UTok.t | 'U' => some UTok.uh | 'T' => some UTok.th
+    | 'w' => some UTok.w | 'v' => some UTok.v | _ => none)
 
 structure TcpCase where
   a : EP
   b : EP
-  sched : List Bool
+  sched : List TTok
 
 def parseTcp : List String → Option TcpCase
   | "tcp" :: "A" :: ts => do
@@ -78,7 +98,7 @@ def parseTcp : List String → Option TcpCase
       let (b, ts) ← parseEP ts
       match ts with
       | ["s", s] => do
-        let σ ← schedOf 'a' 'b' s
+        let σ ← tcpSched s
         pure ⟨a, b, σ⟩
       | _ => none
     | _ => none
@@ -108,7 +128,7 @@ def parseUEvs : Nat → List String → Option (List UEv × List String)
 structure UdpLine where
   spec : UdpSpecCase
   sizes : List Nat
-  sched : List Bool
+  sched : List UTok
 
 def parseUdp : List String → Option UdpLine
   | "udp" :: "U" :: ut :: k :: ts => do
@@ -130,7 +150,7 @@ def parseUdp : List String → Option UdpLine
         let sz ← natList sz
         match ts with
         | ["s", s] => do
-          let σ ← schedOf 'u' 't' s
+          let σ ← udpSched s
           pure ⟨⟨uevs, utail, tds, cut, junk, ttail, fused⟩, sz, σ⟩
         | _ => none
       | _ => none
@@ -161,7 +181,7 @@ def runModel (ts : List String) : String :=
   match ts with
   | "tcp" :: _ =>
     match parseTcp ts with
-    | some c => tcpObsStr (tcpObs (tcpRun c.a c.b (tcpComplete c.a c.b c.sched)))
+    | some c => tcpObsStr (tcpObs c.a c.b (tcpRun c.a c.b (tcpComplete c.a c.b c.sched)))
     | none => "bad-case"
   | "udp" :: _ =>
     match parseUdp ts with
